@@ -271,6 +271,35 @@ Theorem client_limit_any_codec : forall codec limit,
 Proof. exact client_limit_any_codec_proof. Qed.
 Print Assumptions client_limit_any_codec.
 
+(* fifth wave.  One reference client process serves a HISTORY of requests, each carrying its own limit: the outcome of
+   a request inside any history (whatever came before and comes after it) is its outcome alone *)
+Theorem client_limit_is_per_request : forall codec before r after,
+  nth_error (client_seq_outcomes codec (before ++ r :: after)) (length before)
+  = nth_error (client_seq_outcomes codec [r]) 0.
+Proof. exact client_limit_is_per_request_proof. Qed.
+Print Assumptions client_limit_is_per_request.
+
+(* ... the loop started after ANY history gives the same outcomes *)
+Theorem client_history_irrelevant : forall codec seen1 seen2 reqs,
+  client_process codec seen1 reqs = client_process codec seen2 reqs.
+Proof. exact client_history_irrelevant_proof. Qed.
+Print Assumptions client_history_irrelevant.
+
+(* ... and the k-th request of every history is held to exactly ITS limit: accepted iff size <= its own limit when it
+   carries one, accepted when it carries none *)
+Theorem client_seq_sharp_at_own_limit : forall codec reqs k limit size,
+  nth_error reqs k = Some (limit, size) ->
+  (0 < limit -> exists b, nth_error (client_seq_outcomes codec reqs) k = Some b /\ (b = true <-> size <= limit)) /\
+  (limit <= 0 -> nth_error (client_seq_outcomes codec reqs) k = Some true).
+Proof. exact client_seq_sharp_at_own_limit_proof. Qed.
+Print Assumptions client_seq_sharp_at_own_limit.
+
+Example ex_client_history_small_default_large :
+  client_seq_outcomes 1 [(1024, 1024); (1024, 1025); (1048576, 1048576); (1048576, 1048577); (3145728, 3145728);
+                         (3145728, 3145729); (0, 4194304); (1024, 1025)]
+  = [true; false; true; false; true; false; true; false].
+Proof. reflexivity. Qed.
+
 (* the reference server's ClientStream handler answers resource_exhausted iff SOME message is above the limit -
    whatever the response definition asks for - and what the definition asks for iff every message is within it *)
 Theorem receive_error_comes_first : forall limit def sizes,
